@@ -588,6 +588,7 @@ class Generated:
         self.pieces = []      # Piece
         self.labels = {}      # line number (1-based) -> label
         self.label_text = {}  # label -> clause text
+        self.generated = []   # descriptions of generated oracle text
 
 def generate(spec_path, open_findings=()):
     """open_findings: set of finding ids that are open (for //@ if-open)."""
@@ -620,6 +621,12 @@ def generate(spec_path, open_findings=()):
                     inc = os.path.join(os.path.dirname(os.path.dirname(os.path.abspath(__file__))), "specs", d[8:].strip())
                 lines[i:i + 1] = open(inc).read().split("\n")
                 continue
+            if d.startswith("generate optable "):
+                from . import optable
+                txt, carriers = optable.gen(d.split()[2])
+                out.extend(txt.split("\n"))
+                gen.generated.append("operator oracle %s_refs/with_%s_refs from wasmparser for_each_operator! (%d carriers)" % (d.split()[2], d.split()[2], len(carriers)))
+                i += 1; continue
             if d.startswith("derive-policy "):
                 # e.g.  //@ derive-policy +Structural DataType FunctionID   |  -Default *
                 ws = d.split()
